@@ -331,6 +331,21 @@ def check_c20(rep, tier):
         for mv in line.split():
             ops += ["playh " + mv, "obs", "pgn"]
         cases.append(ops + ["show"])
+    # games as long as the engine accepts (398 plies): the record must still hold EVERY move, from the first one
+    ops = ["new " + roots.START, "obs"]
+    for k in range(97):
+        for mv in ("g1f3", "g8f6", "f3g1", "f6g8"):
+            ops += ["playh " + mv, "obs"]
+        if k in (31, 63, 64, 96):
+            ops += ["pgn"]
+    cases.append(ops + ["pgn", "show"])
+    for _ in range(2 if tier == "quick" else 12):
+        ops = ["new " + roots.START, "obs"]
+        for k in range(396):
+            ops += ["pushh %d" % r.randrange(1 << 30), "obs"]
+            if k in (120, 250, 258, 300, 395):
+                ops += ["pgn"]
+        cases.append(ops + ["pgn", "show"])
     stats, kinds = Counter(), Counter()
     rust, lean = searchchk.run_pair(rep, cases)
     first = searchchk.correspondence(rep, "C20", cases, rust, lean, stats)
@@ -349,7 +364,7 @@ def check_c20(rep, tier):
             if name == "obs" and "|" in out[0]:
                 last_obs = out[0].split("|")
                 fen = last_obs[0]
-            elif name in ("pushbias", "playh") and ":" in out[0] and fen:
+            elif name in ("pushbias", "playh", "pushh") and ":" in out[0] and fen:
                 d = out[0].split(":")
                 e = expected_pgn(fen, d[0])
                 expect.append(e)
